@@ -119,8 +119,15 @@ func c10Run(r *c10Ring, cs c10Case) (int, string) {
 			}
 		}
 		if k&2 != 0 {
+			// children with a history: two appended, one removed again - exactly one remains
 			if err := entry.PrefixAppend(chordlib.Ctx, key, []byte("child")); err != nil {
 				return 0, fmt.Sprintf("populate append %s: %v", c10Keys[i], err)
+			}
+			if err := entry.PrefixAppend(chordlib.Ctx, key, []byte("child2")); err != nil {
+				return 0, fmt.Sprintf("populate append %s: %v", c10Keys[i], err)
+			}
+			if err := nodes[(i+1)%len(nodes)].PrefixRemove(chordlib.Ctx, key, []byte("child2")); err != nil {
+				return 0, fmt.Sprintf("populate remove %s: %v", c10Keys[i], err)
 			}
 		}
 		if k&4 != 0 {
